@@ -823,7 +823,7 @@ def run(prop, tier):
     exc = None
     rep = None
     try:
-        rep, _e = attempt(False)
+        rep, _e = attempt(bool(os.environ.get('QV_FORCE_INLINE')))       # (the variable exists to test the inliner itself)
     except AnalysisBroken as e:
         exc = e
     if exc is not None or rep.broken:
